@@ -95,7 +95,9 @@ def gen_instance(rng, maxn=6, maxT=5, G=3, family=None):
 def gen_config(rng, allow=('ne', 'W', 'nodes', 'cuts', 'goback'), cls=None):
     cls = cls or rng.choice(['simple', 'distance'])
     only_edges = True if (cls == 'distance' or 'nodes' not in allow) else rng.random() < 0.6
-    cf = {'cls': cls, 'obs_noise': rng.choice([0.5, 1.0, 2.0]), 'obs_noise_ne': rng.choice([None, None, 1.0, 3.0]),
+    if 'cuts' in allow and rng.random() < 0.45:
+        allow = tuple(a for a in allow if a != 'cuts')      # about half of the configurations have no cut-off at all
+    cf = {'cls': cls, 'obs_noise': rng.choice([0.5, 1.0, 2.0, 0.5, 1.0, 2.0, 5.0, 25.0, 0.3]), 'obs_noise_ne': rng.choice([None, None, 1.0, 3.0]),
           'max_dist': rng.choice([None, 1.0, 2.0, 0.75, 3.0]) if 'cuts' in allow else None,
           'max_dist_init': rng.choice([None, 1.0, 3.0]) if 'cuts' in allow else None,
           'min_prob_norm': rng.choice([None, None, 0.5, 0.1, 0.01]) if 'cuts' in allow else None,
